@@ -7,7 +7,9 @@ package localfs
 import (
 	"math/rand"
 	"os"
+	"runtime"
 	"sync"
+	"sync/atomic"
 	"syscall"
 	"testing"
 	"time"
@@ -153,4 +155,64 @@ func TestVerifC20Local(t *testing.T) {
 	close(start)
 	wg.Wait()
 	out.Emit(map[string]interface{}{"kind": "conc", "h": hist, "c": conc})
+	vh20FirstLookups(t, out, hist)
+}
+
+// vh20FirstLookups aims at the window between "looked the pair up: not there" and "stored a path for it": several
+// goroutines leave a spin barrier together (all on a CPU, no scheduler hand-off as with a WaitGroup) and make the FIRST
+// lookup of one fresh unlikely pair; one more lookup follows when they are done.  Every round uses a new pair.  All
+// results of a round must be one path (check-then-act without a second look hands out two).  Emitted as one "conc"
+// observation (prefix: the sequential history of this process): identical results of a round are recorded once.
+func vh20FirstLookups(t *testing.T, out *vhfsOut, hist [][3]uint64) {
+	rounds, budget := 3000, 6*time.Second
+	if vhfsThorough() {
+		rounds, budget = 40000, 40*time.Second
+	}
+	workers := runtime.GOMAXPROCS(0)
+	if workers > 4 {
+		workers = 4
+	}
+	if workers < 2 {
+		workers = 2
+	}
+	deadline := time.Now().Add(budget)
+	var conc [][3]uint64
+	for rd := 0; rd < rounds && time.Now().Before(deadline); rd++ {
+		p := vh20Pair{0x803, 1<<52 + 0x4d340000 + uint64(rd)}
+		var ready, release int32
+		var wg sync.WaitGroup
+		got := make([]uint64, workers)
+		for w := 0; w < workers; w++ {
+			wg.Add(1)
+			go func(w int) {
+				defer wg.Done()
+				fi := vh20FI{&syscall.Stat_t{Dev: p.Dev, Ino: p.Ino}}
+				atomic.AddInt32(&ready, 1)
+				for i := 0; atomic.LoadInt32(&release) == 0; i++ {
+					if i%1024 == 1023 {
+						runtime.Gosched()
+					}
+				}
+				q, err := localToQid("ignored", fi)
+				if err != nil {
+					t.Errorf("localToQid: %v", err)
+				}
+				got[w] = q
+			}(w)
+		}
+		for atomic.LoadInt32(&ready) != int32(workers) {
+			runtime.Gosched()
+		}
+		atomic.StoreInt32(&release, 1)
+		wg.Wait()
+		got = append(got, vh20Look(t, p))
+		seen := map[uint64]bool{}
+		for _, q := range got {
+			if !seen[q] {
+				seen[q] = true
+				conc = append(conc, [3]uint64{p.Dev, p.Ino, q})
+			}
+		}
+	}
+	out.Emit(map[string]interface{}{"kind": "conc", "h": hist, "c": conc, "first_lookup_rounds": true})
 }
